@@ -12,7 +12,10 @@ rec = load()
 bad = None
 for cls_name, kw in sorted(dm._DATASET_KEYWORDS.items()):
     prim_cls = dm._MSG_TO_PRIMITIVE[cls_name[:cls_name.rfind("_R")]]
-    for label, value in (("absent", None), ("empty", BytesIO(b"")), ("non-empty", BytesIO(b"\x08\x00\x05\x00\x04\x00\x00\x00ISO "))):
+    _at_end = BytesIO()
+    _at_end.write(b"\x08\x00\x05\x00\x04\x00\x00\x00ISO ")          # filled with write(): the stream position is at the end
+    for label, value in (("absent", None), ("empty", BytesIO(b"")), ("non-empty", BytesIO(b"\x08\x00\x05\x00\x04\x00\x00\x00ISO ")),
+                         ("non-empty, stream position at the end", _at_end)):
         p = prim_cls()
         for attr, v in (("MessageID", 1), ("MessageIDBeingRespondedTo", 1)):
             if cls_name.endswith("_RSP") == (attr == "MessageIDBeingRespondedTo") and hasattr(p, attr):
